@@ -143,7 +143,7 @@ fn boundaries(text: &str) -> Vec<usize> {
     v
 }
 
-pub fn run_case(case: &Case, exhaustive_limit: usize, sampled: usize, cfgs: &[Cfg], rng: &mut Rng, acc: &mut Acc) {
+pub fn run_case(case: &Case, exhaustive_limit: usize, sampled: usize, cfgs: &[Cfg], _rng: &mut Rng, acc: &mut Acc) {
     let text = &case.text;
     let cx = RangeCtx::new(text);
     let xh = util::hash64(text);
@@ -168,6 +168,10 @@ pub fn run_case(case: &Case, exhaustive_limit: usize, sampled: usize, cfgs: &[Cf
         pairs.push((0, 0));
         pairs.push((text.len(), text.len()));
         pairs.push((0, text.len() + 2));
+        // the sampled requests are a function of the text alone (quick takes a prefix of what the full sweep takes), so that
+        // VERIF_SEED selects which sources are visited, never which of their ranges: the pool stays closed
+        let mut text_rng = Rng::new(util::hash64(text) ^ 0x5241_4e47);
+        let rng = &mut text_rng;
         for _ in 0..sampled {
             let i = rng.below(bs.len());
             let span = 1 + rng.below(400);
@@ -222,4 +226,106 @@ pub fn violated(input: &str, cfg: Cfg, extra: &serde_json::Value) -> Option<bool
     let cx = RangeCtx::new(input);
     let mut acc = Acc::new();
     Some(check_range(&cx, a, b, cfg, &mut acc).is_some())
+}
+
+
+// ------------------------------------------------------------------------------------------------
+// C10 through range formatting: literals that span lines (strings, raw text, nodes kept verbatim after `@typstyle off`) sit
+// in the printed text as one token; an entry point that re-indents the *text* it gets back touches their content.
+
+/// Does this source have a literal token (or a verbatim region) that contains a line break?
+pub fn has_multiline_literal(root: &typst_syntax::SyntaxNode) -> bool {
+    crate::tree::leaves(root).iter().any(|l| {
+        let k = l.kind();
+        (matches!(k, typst_syntax::SyntaxKind::Str | typst_syntax::SyntaxKind::Text | typst_syntax::SyntaxKind::RawTrimmed) && l.node.text().contains(|c: char| typst_syntax::is_newline(c)))
+            || (crate::tree::is_comment(k) && l.node.text().contains("@typstyle off"))
+    }) || {
+        let mut raw_ml = false;
+        crate::tree::walk(root, &mut |n, _, _| {
+            if n.kind() == typst_syntax::SyntaxKind::Raw && n.clone().into_text().contains('\n') {
+                raw_ml = true;
+            }
+        });
+        raw_ml
+    }
+}
+
+/// For every leaf of the source: request the leaf's range, splice what comes back, compare the literal sequences (as C10 does
+/// for whole-document formatting). Returns the first difference.
+pub fn range_literal_check(text: &str, cfg: Cfg, acc: &mut Acc) -> Option<(String, serde_json::Value)> {
+    let src = Source::detached(text);
+    if src.root().erroneous() {
+        return None;
+    }
+    let want = crate::streams::literal_stream(src.root());
+    let mut seen = std::collections::HashSet::new();
+    for l in crate::tree::leaves(src.root()) {
+        let (a, b) = (l.start, l.end());
+        let res = fmtx::guarded(|| Typstyle::new(cfg.to_config()).format_source_range(&src, a..b));
+        acc.evaluations += 1;
+        let Ok(Ok((r, t))) = res else { continue };
+        if !seen.insert((r.start, r.end)) {
+            acc.held += 1;
+            continue;
+        }
+        let spliced = format!("{}{}{}", &text[..r.start], t, &text[r.end..]);
+        let p2 = typst_syntax::parse(&spliced);
+        if p2.erroneous() {
+            // C13's business
+            acc.inconclusive("splice-has-syntax-errors(C13)");
+            continue;
+        }
+        acc.count("range_splices_compared", 1);
+        let got = crate::streams::literal_stream(&p2);
+        if got != want {
+            let i = want.iter().zip(got.iter()).position(|(x, y)| x != y).unwrap_or(want.len().min(got.len()));
+            return Some((
+                format!(
+                    "range {}..{} (returned {:?}): literal sequences differ at {}: input […{}…] spliced […{}…]",
+                    a,
+                    b,
+                    r,
+                    i,
+                    util::clip(want.get(i).map(|s| s.as_str()).unwrap_or("<end>"), 80),
+                    util::clip(got.get(i).map(|s| s.as_str()).unwrap_or("<end>"), 80)
+                ),
+                serde_json::json!({"start": a, "end": b}),
+            ));
+        }
+        acc.held += 1;
+    }
+    None
+}
+
+pub fn range_literal_case(case: &Case, cfgs: &[Cfg], acc: &mut Acc) {
+    let Some(root) = crate::tree::parse_ok(&case.text) else { return };
+    if !has_multiline_literal(&root) {
+        acc.count("range_literal_sources_without_multiline_literal", 1);
+        return;
+    }
+    acc.count("range_literal_sources", 1);
+    acc.distinct_inputs.insert(util::hash64(&case.text));
+    for &cfg in cfgs {
+        if let Some((detail, extra)) = range_literal_check(&case.text, cfg, acc) {
+            acc.violations.push(Violation {
+                property: "C10".into(),
+                input: case.text.clone(),
+                cfg: Some(cfg),
+                origin: case.origin.clone(),
+                oracle: "range-literal-stream".into(),
+                detail,
+                extra,
+            });
+        } else {
+            acc.nontrivial.insert(util::hash64_parts(&["range-literal", &case.text]));
+        }
+    }
+}
+
+pub fn range_literal_violated(input: &str, cfg: Cfg) -> Option<bool> {
+    let mut acc = Acc::new();
+    if crate::tree::parse_ok(input).is_none() {
+        return None;
+    }
+    Some(range_literal_check(input, cfg, &mut acc).is_some())
 }
